@@ -276,6 +276,10 @@ def binary_node_contract(node, resolver, addr, content):
     check("occupies_len_bytes", after.physical == addr.physical + n)
     check("start_symbol", scope.symbols[node.symbol_base] == addr.logical_value and scope.labels[node.symbol_base] == addr.logical_value)
     check("size_symbol", scope.symbols[node.symbol_base + "__size"] == n)
+    # ... defined in the scope the directive is written in, and nowhere else (two inclusions of one file from two scopes keep their own start symbols)
+    outer = scope.parent
+    check("symbols_local_to_the_directive_scope", outer is None or (node.symbol_base not in outer.symbols and node.symbol_base + "__size" not in outer.symbols
+                                                                  and node.symbol_base not in outer.labels))
 
 
 def binary_node_init_contract(path, resolver, content):
